@@ -544,9 +544,14 @@ SignalHandler::~SignalHandler() {
 }
 
 void SignalHandler::SetHandler(InterruptHandler handler, void *data) {
-  handler_ = handler;
+  // Withdraw the current callback, then store the data, then publish the
+  // new callback: a signal in between calls nothing (it is still counted)
+  // instead of the new callback with the data of the previous registration.
+  handler_ = 0;
   MP_VERIF_POINT(7);
   data_ = data;
+  MP_VERIF_POINT(7);
+  handler_ = handler;
   MP_VERIF_POINT(8);
 }
 
